@@ -31,6 +31,12 @@ OPS = {
     'o:x1*y1:uq': ('bin', '*', 'uq', 'x1', 'i:1', 'y1', 'i:2'),
     'o:x1*y1:qq': ('bin', '*', 'qq', 'x1', 'i:3', 'y1', 'i:1'),
     'o:y1*x1:qu': ('bin', '*', 'qu', 'y1', 'i:5', 'x1', 'i:1'),
+    'o:vt2/v0:qq': ('bin', '/', 'qq', 'vt2', 'i:36', 'x0/y0', 'i:10'),
+    'o:vt2*v0:uu': ('bin', '*', 'uu', 'vt2', 'i:1', 'x0/y0', 'i:1'),
+    # results rounded to a currency's smallest fraction (ties and near ties)
+    'o:$eur/2': ('num', 'q/k', 'EUR', 'D:5.01', 'i:2'),
+    'o:$eur*k': ('num', 'q*k', 'EUR', 'D:1.01', 'D:0.5'),
+    'o:$xab/3': ('num', 'q/k', 'XAB', 'D:0.40', 'i:3'),
     'o:n1/x0:qq': ('bin', '/', 'qq', 'n1', 'i:6', 'x0', 'i:3'),
     'o:n1/x1:qu': ('bin', '/', 'qu', 'n1', 'i:6', 'x1', 'i:1'),
     'o:n1/x1:uu': ('bin', '/', 'uu', 'n1', 'i:1', 'x1', 'i:1'),
@@ -46,9 +52,18 @@ def operands(name):
     return [spec[2]]
 
 
+MODES = {'m:UP': 'ROUND_UP', 'm:FLOOR': 'ROUND_FLOOR',
+         'm:HALF_UP': 'ROUND_HALF_UP'}
+
+
 def evaluate(w, name):
     """-> violations of the real operation against the oracle *now*"""
     spec = OPS[name]
+    if name.startswith('o:$'):
+        # money arithmetic has its own oracle (C10); here the operation is
+        # only evaluated so that it is part of the history
+        canonical(w, name)
+        return []
     if spec[0] == 'bin':
         res = c02.run_binop(w, *spec[1:])
     elif spec[0] == 'pow':
@@ -71,6 +86,14 @@ def canonical(w, name):
             _, kind, s, a, n = spec
             u = w.units[s]
             r = u.qty_cls(O.dec(a), u) ** n
+        elif spec[1] == 'q/k':
+            _, form, s, a, k = spec
+            u = w.units[s]
+            r = u.qty_cls(O.dec(a), u) / O.dec(k)
+        elif spec[1] == 'q*k':
+            _, form, s, a, k = spec
+            u = w.units[s]
+            r = u.qty_cls(O.dec(a), u) * O.dec(k)
         else:
             _, form, s, a, k = spec
             u = w.units[s]
@@ -110,6 +133,13 @@ def step(state, hist, name):
         viol = evaluate(w, name)
         state['done'] = state['done'] + [name]
         ok = True
+    elif name.startswith('m:'):
+        # the default rounding mode is switched: from here on results are
+        # compared with histories that end in the same mode
+        O.set_mode(MODES[name])
+        state['mode'] = name
+        state['done'] = state['done'] + [name]
+        ok = True
     else:
         rec = decl.step(state, hist, name, with_ops=False)
         viol = [(s, m) for s, m in rec['viol']]
@@ -118,7 +148,8 @@ def step(state, hist, name):
             return dict(rec, declared=None)
     probes = fork_call(probe_all, w)
     declared = sorted(n for n in state['done'] if not n.startswith('o:')
-                      and not n.startswith('?'))
+                      and not n.startswith('?') and not n.startswith('m:'))
+    declared.append(state.get('mode', 'm:default'))
     rep = [k for k in probes if k.endswith(':again')
            and probes[k] != probes[k[:-6]]]
     for k in rep:
@@ -144,6 +175,8 @@ def explore(root, names, depth, total):
                     continue
                 if all(s in w.um for s in operands(n)):
                     out.append(n)
+            elif n.startswith('m:'):
+                out.append(n)
             else:
                 ev, req, kind = decl.EVENTS[n]
                 if all(decl.exists(w, r) for r in req):
@@ -204,13 +237,17 @@ def replay(case):
     return out
 
 
-DECLS = ['V', 'S', 'P', 'F', 'x1/y1', 'vdup', 'vt']
+DECLS = ['V', 'S', 'P', 'F', 'x1/y1', 'vdup', 'vt', 'vt2']
 ROOT_A = ['B1', 'B2', 'x1', 'y1']
-OPS_A = [n for n in OPS if not n.startswith('o:n1')]
+OPS_A = [n for n in OPS if not n.startswith('o:n1')
+         and not n.startswith('o:$')]
 ROOT_N = ['B1', 'N1', 'n1', 'x1']
 DECLS_N = ['NB', 'n1/x0', 'n1/x1']
 OPS_N = [n for n in OPS if n.startswith('o:n1')]
-FOCUS_V = ['V', 'x1/y1', 'vdup', 'o:x1/y1:qq', 'o:x1/y1:uu', 'o:x1/y1:uq',
+ROOT_M = ['EUR', 'XAB']
+NAMES_M = ['m:UP', 'm:FLOOR', 'm:HALF_UP', 'o:$eur/2', 'o:$eur*k',
+           'o:$xab/3', 'o:$eur/2#2']
+FOCUS_V = ['V', 'x1/y1', 'vdup', 'vt2', 'o:vt2/v0:qq', 'o:x1/y1:qq', 'o:x1/y1:uu', 'o:x1/y1:uq',
            'o:v*y1', 'o:y1*v', 'o:x1/y1:qq#2']
 FOCUS_P = ['P', 'S', 'o:x1*y1:uq', 'o:x1*y1:qq', 'o:y1*x1:qu', 'o:x1*x1',
            'o:x0*x1:uu', 'o:x1**2', 'o:x1*y1:qq#2']
@@ -221,11 +258,13 @@ def run(tier, seed):
     counts = {}
     if tier == 'thorough':
         plans = [(ROOT_A, DECLS + OPS_A, 3), (ROOT_A, FOCUS_V, 5),
-                 (ROOT_A, FOCUS_P, 5), (ROOT_N, DECLS_N + OPS_N, 5)]
+                 (ROOT_A, FOCUS_P, 5), (ROOT_N, DECLS_N + OPS_N, 5),
+                 (ROOT_M, NAMES_M, 6)]
     else:
         nosecond = [n for n in OPS_A if not n.endswith('#2')]
         plans = [(ROOT_A, DECLS + nosecond, 3), (ROOT_A, FOCUS_V, 4),
-                 (ROOT_A, FOCUS_P, 4), (ROOT_N, DECLS_N + OPS_N, 4)]
+                 (ROOT_A, FOCUS_P, 4), (ROOT_N, DECLS_N + OPS_N, 4),
+                 (ROOT_M, NAMES_M, 5)]
     for root, names, depth in plans:
         n, ng = explore(root, names, depth, total)
         counts[f"root {'+'.join(root)} / {len(names)} events / depth "
@@ -242,7 +281,9 @@ def run(tier, seed):
              "without reference unit) interleaved with operations evaluated "
              "in-process (quotients, products, powers, k/q, cancelling "
              "products; quantity/unit operand kinds; both operand orders; "
-             "each repeatable): "
+             "each repeatable) and, from a root with two currencies, switches of "
+             "the default rounding mode interleaved with money operations "
+             "that hit ties: "
              + '; '.join(f"{k}: {v['nodes']} nodes, {v['declared_sets']} "
                          "declared sets" for k, v in counts.items())
              + ". state = (declared set, fingerprint of all probe results); "
